@@ -392,8 +392,68 @@ func (c *Ctx) probeIndexCoversPool() {
 				}
 			})
 		}
+		// a walk over the pool whose successive indices each come from a fresh read-modify-write of a
+		// shared cursor is a lap only for one goroutine at a time: with overlapping picks the other
+		// requests' increments fall between this request's probes, the walk can land on ejected backends
+		// only, and the client is answered 'no backend' although an unvisited backend is healthy
+		for _, f := range fns {
+			instrsOf(f, func(in ssa.Instruction) {
+				var idx ssa.Value
+				switch x := in.(type) {
+				case *ssa.IndexAddr:
+					idx = x.Index
+				case *ssa.Index:
+					idx = x.Index
+				default:
+					return
+				}
+				loops := enclosingLoops(in.Block())
+				if len(loops) == 0 {
+					return
+				}
+				var rmw *ssa.Call
+				var walk func(v ssa.Value, depth int)
+				seen := map[ssa.Value]bool{}
+				walk = func(v ssa.Value, depth int) {
+					if v == nil || depth > 8 || seen[v] || rmw != nil {
+						return
+					}
+					seen[v] = true
+					switch x := v.(type) {
+					case *ssa.Convert:
+						walk(x.X, depth+1)
+					case *ssa.ChangeType:
+						walk(x.X, depth+1)
+					case *ssa.BinOp:
+						walk(x.X, depth+1)
+						walk(x.Y, depth+1)
+					case *ssa.Phi:
+						for _, e := range x.Edges {
+							walk(e, depth+1)
+						}
+					case *ssa.Call:
+						n := CalleeName(x)
+						if strings.HasPrefix(n, "sync/atomic.Add") || (strings.HasPrefix(n, "(*sync/atomic.") && strings.HasSuffix(n, ").Add")) {
+							rmw = x
+						}
+					}
+				}
+				walk(idx, 0)
+				if rmw == nil {
+					return
+				}
+				for _, h := range enclosingLoops(rmw.Block()) {
+					for _, h2 := range loops {
+						if h == h2 {
+							bad = append(bad, fmt.Sprintf("%s: inside the loop that walks the pool, each index is taken from a fresh atomic increment of a shared cursor (%s): the increments of overlapping picks fall between this request's probes, so its 'lap' need not visit every slot and it can answer 'no backend' although an unvisited backend is healthy (take the cursor once, before the loop, and add the loop's own counter)", p.InstrPos(in), p.InstrPos(rmw)))
+							return
+						}
+					}
+				}
+			})
+		}
 		if len(bad) == 0 {
-			c.Pass("selection-complete", construct+"/index-arithmetic", p.Pos(fn.Pos()), "no pool index is computed as (unreduced hash + offset) mod n")
+			c.Pass("selection-complete", construct+"/index-arithmetic", p.Pos(fn.Pos()), "no pool index is computed as (unreduced hash + offset) mod n, and no walk over the pool draws each index from a shared cursor inside the loop")
 		} else {
 			c.Fail("selection-complete", construct+"/index-arithmetic", p.Pos(fn.Pos()), bad[0], bad...)
 		}
